@@ -24,89 +24,76 @@ Print Assumptions C02_set_refines_pure.
 
 (** Full strength: the root an update returns is a function of the prior root
     and the ordered writes only — it is the root of C01's [t_set_all] applied to the
-    tree the prior root denotes — after every history, under every configuration. *)
+    tree the prior root denotes — after every history, under every configuration
+    (prune included: since chain33 7d7bddb the root objects that DelLeafCountKV
+    leaves in the ARC cache own their hash; former known finding 3). *)
 Definition C02_root_deterministic_full : Prop := root_deterministic_full.
 
-(** Refuted under prune: DelLeafCountKV leaves a root object in the ARC cache
-    whose hash slice aliases a LevelDB iterator buffer, and a Set with no writes
-    returns what that slice reads afterwards (another root of the same height). *)
-Theorem C02_root_deterministic_refuted : ~ C02_root_deterministic_full.
-Proof. exact root_deterministic_refuted. Qed.
-Print Assumptions C02_root_deterministic_refuted.
-
-(** The partial statement: for every sound state (any configuration, block
-    height, database, caches, pending trees, byte order), unless the update is a
-    direct Set with no writes on a root whose cached object is aliased
-    ([plain_update], a boolean), the root is C01's pure root. *)
-Theorem C02_root_deterministic_partial : forall pending ord c s r bh kvs r' s',
-  store_sound s -> plain_update pending s r kvs = true ->
-  st_update pending ord c s r bh kvs = Ok (r', s') ->
-  exists o', t_set_all (root_tree r) kvs = Some o' /\ r' = tree_root o'.
+Theorem C02_root_deterministic : C02_root_deterministic_full.
 Proof. exact root_deterministic. Qed.
-Print Assumptions C02_root_deterministic_partial.
+Print Assumptions C02_root_deterministic.
+
+(** The same for every sound state (any configuration, block height, database,
+    caches, pending trees), reachable or not, with no guard. *)
+Theorem C02_root_deterministic_state : forall pending c s r bh kvs r' s',
+  store_sound s ->
+  st_update pending c s r bh kvs = Ok (r', s') ->
+  exists o', t_set_all (root_tree r) kvs = Some o' /\ r' = tree_root o'.
+Proof. exact root_deterministic_state. Qed.
+Print Assumptions C02_root_deterministic_state.
 
 (** Hence: same prior root, same writes => same new root, across configurations,
-    heights, stores, byte orders, and Set versus MemSet. *)
-Theorem C02_root_cfg_independent : forall p1 p2 o1 o2 c1 c2 s1 s2 r bh1 bh2 kvs r1 r2 s1' s2',
+    heights, stores, and Set versus MemSet. *)
+Theorem C02_root_cfg_independent : forall p1 p2 c1 c2 s1 s2 r bh1 bh2 kvs r1 r2 s1' s2',
   store_sound s1 -> store_sound s2 ->
-  plain_update p1 s1 r kvs = true -> plain_update p2 s2 r kvs = true ->
-  st_update p1 o1 c1 s1 r bh1 kvs = Ok (r1, s1') ->
-  st_update p2 o2 c2 s2 r bh2 kvs = Ok (r2, s2') ->
+  st_update p1 c1 s1 r bh1 kvs = Ok (r1, s1') ->
+  st_update p2 c2 s2 r bh2 kvs = Ok (r2, s2') ->
   r1 = r2.
 Proof. exact root_cfg_independent. Qed.
 Print Assumptions C02_root_cfg_independent.
 
-(** Without prune the guard holds along every history: no cache entry is aliased. *)
-Theorem C02_noprune_plain : forall ord c ops pending r kvs,
-  c_prune c = false ->
-  plain_update pending (fst (exec ord c empty_store [None] ops)) r kvs = true.
-Proof.
-  intros ord c ops pending r kvs NP. apply noalias_plain. apply exec_noalias; auto.
-Qed.
-Print Assumptions C02_noprune_plain.
-
 (** Soundness of everything a load can return (database, ARC cache, memTree,
     pending trees) is an invariant of every store operation under every
     configuration — including pending trees that are rolled back. *)
-Theorem C02_store_sound_invariant : forall ord c s, store_sound s ->
-  (forall r bh kvs r' s', st_set ord c s r bh kvs = Ok (r', s') -> store_sound s') /\
+Theorem C02_store_sound_invariant : forall c s, store_sound s ->
+  (forall r bh kvs r' s', st_set c s r bh kvs = Ok (r', s') -> store_sound s') /\
   (forall r bh kvs r' s', st_memset c s r bh kvs = Ok (r', s') -> store_sound s') /\
-  (forall r r' s', st_commit ord c s r = Ok (r', s') -> store_sound s') /\
+  (forall r r' s', st_commit c s r = Ok (r', s') -> store_sound s') /\
   (forall r r' s', st_rollback c s r = Ok (r', s') -> store_sound s') /\
   (forall r o s', st_probe c s r = Ok (o, s') -> store_sound s').
 Proof. exact sound_invariant. Qed.
 Print Assumptions C02_store_sound_invariant.
 
-Theorem C02_cache_sound_invariant : forall ord c s, store_sound s ->
-  (forall r bh kvs r' s', st_set ord c s r bh kvs = Ok (r', s') -> cache_sound s') /\
+Theorem C02_cache_sound_invariant : forall c s, store_sound s ->
+  (forall r bh kvs r' s', st_set c s r bh kvs = Ok (r', s') -> cache_sound s') /\
   (forall r bh kvs r' s', st_memset c s r bh kvs = Ok (r', s') -> cache_sound s') /\
-  (forall r r' s', st_commit ord c s r = Ok (r', s') -> cache_sound s') /\
+  (forall r r' s', st_commit c s r = Ok (r', s') -> cache_sound s') /\
   (forall r r' s', st_rollback c s r = Ok (r', s') -> cache_sound s') /\
   (forall r o s', st_probe c s r = Ok (o, s') -> cache_sound s').
 Proof. exact cache_sound_invariant. Qed.
 Print Assumptions C02_cache_sound_invariant.
 
-Theorem C02_history_sound : forall ord c ops, store_sound (fst (exec ord c empty_store [None] ops)).
-Proof. intros ord c ops. apply exec_sound. apply empty_sound. Qed.
+Theorem C02_history_sound : forall c ops, store_sound (fst (exec c empty_store [None] ops)).
+Proof. intros c ops. apply exec_sound. apply empty_sound. Qed.
 Print Assumptions C02_history_sound.
 
 (** MemSet then Commit = Set: same root (Commit answers with MemSet's root),
     same database nodes, same root index; without prune neither can fail if the
     other succeeded. *)
-Theorem C02_memset_commit_eq_set : forall ord c s r bh kvs r1 s1,
+Theorem C02_memset_commit_eq_set : forall c s r bh kvs r1 s1,
   kvs <> [] -> st_memset c s r bh kvs = Ok (r1, s1) ->
-  (forall r2 s2, st_commit ord c s1 r1 = Ok (r2, s2) -> r2 = r1) /\
-  (forall r' s' s2, st_set ord c s r bh kvs = Ok (r', s') -> st_commit ord c s1 r1 = Ok (r1, s2) ->
+  (forall r2 s2, st_commit c s1 r1 = Ok (r2, s2) -> r2 = r1) /\
+  (forall r' s' s2, st_set c s r bh kvs = Ok (r', s') -> st_commit c s1 r1 = Ok (r1, s2) ->
                     r' = r1 /\ s_db s2 = s_db s' /\ s_idx s2 = s_idx s') /\
-  (forall r' s', st_set ord c s r bh kvs = Ok (r', s') -> r' = r1) /\
+  (forall r' s', st_set c s r bh kvs = Ok (r', s') -> r' = r1) /\
   (c_prune c = false ->
-   exists s2 s', st_commit ord c s1 r1 = Ok (r1, s2) /\ st_set ord c s r bh kvs = Ok (r1, s')).
+   exists s2 s', st_commit c s1 r1 = Ok (r1, s2) /\ st_set c s r bh kvs = Ok (r1, s')).
 Proof. exact memset_commit_eq_set. Qed.
 Print Assumptions C02_memset_commit_eq_set.
 
-Theorem C02_memset_empty : forall ord c s r,
+Theorem C02_memset_empty : forall c s r,
   exists s1, st_memset c s r 0 [] = Ok (r, s1) /\ s_db s1 = s_db s /\
-  exists s2, st_commit ord c s1 r = Ok (r, s2) /\ s_db s2 = s_db s.
+  exists s2, st_commit c s1 r = Ok (r, s2) /\ s_db s2 = s_db s.
 Proof. exact memset_empty. Qed.
 Print Assumptions C02_memset_empty.
 
@@ -120,10 +107,10 @@ Print Assumptions C02_update_total_refuted.
 
 (** The partial statement: the only way an update fails is an unresolvable node
     below the prior root.  [resolvable] and [save_quiet] are booleans. *)
-Theorem C02_update_total_partial : forall pending ord c s r bh kvs,
+Theorem C02_update_total_partial : forall pending c s r bh kvs,
   store_sound s -> o_good (root_tree r) ->
   resolvable c s r = true -> save_quiet c s bh = true ->
-  exists r' s', st_update pending ord c s r bh kvs = Ok (r', s').
+  exists r' s', st_update pending c s r bh kvs = Ok (r', s').
 Proof. exact update_total_partial. Qed.
 Print Assumptions C02_update_total_partial.
 
@@ -131,10 +118,10 @@ Print Assumptions C02_update_total_partial.
     along every history whose updates build on the empty root or on roots the
     history committed ([wf_exec]): there, every update succeeds. *)
 Theorem C02_update_total_nomem : forall c, c_memtree c = false -> c_prune c = false ->
-  forall ord ops r pending bh kvs,
-    wf_exec c ord empty_store [None] ops ->
-    In r (snd (exec' c ord empty_store [None] ops)) ->
-    exists r' s', st_update pending ord c (fst (exec' c ord empty_store [None] ops)) r bh kvs = Ok (r', s').
+  forall ops r pending bh kvs,
+    wf_exec c empty_store [None] ops ->
+    In r (snd (exec' c empty_store [None] ops)) ->
+    exists r' s', st_update pending c (fst (exec' c empty_store [None] ops)) r bh kvs = Ok (r', s').
 Proof. exact update_total_nomem. Qed.
 Print Assumptions C02_update_total_nomem.
 
@@ -149,10 +136,10 @@ Definition ex_c1 := mk_cfg false false false 0 false false 0.
 Definition ex_c2 := new_cfg (mk_cfg false true true 100 true false 0).
 
 Definition ex_root (c : cfg) : root :=
-  match st_set ord0 c empty_store None 7 ex_kvs1 with Ok (r, _) => r | _ => None end.
+  match st_set c empty_store None 7 ex_kvs1 with Ok (r, _) => r | _ => None end.
 
 Definition ex_state (c : cfg) : store :=
-  fst (exec ord0 c empty_store [None]
+  fst (exec c empty_store [None]
          [SSet None 7 ex_kvs1; SMemSet (ex_root c) 9 [(kb "k2", kb "x")];
           SMemSet (ex_root c) 8 [(kb "k9", kb "y"); (kb "k1", kb "z")]; SRollback (ex_root c)]).
 
@@ -167,8 +154,8 @@ Proof. split; [apply C02_history_sound|vm_compute; reflexivity]. Qed.
 (* the same update, direct under the plain configuration and pending under the
    other one, at different block heights, after different histories: same root *)
 Example C02_ex_same_root :
-  match st_update false ord0 ex_c1 (ex_state ex_c1) (ex_root ex_c1) 11 [(kb "k7", kb "q"); (kb "k2", kb "r")],
-        st_update true ord0 ex_c2 (ex_state ex_c2) (ex_root ex_c2) 12 [(kb "k7", kb "q"); (kb "k2", kb "r")] with
+  match st_update false ex_c1 (ex_state ex_c1) (ex_root ex_c1) 11 [(kb "k7", kb "q"); (kb "k2", kb "r")],
+        st_update true ex_c2 (ex_state ex_c2) (ex_root ex_c2) 12 [(kb "k7", kb "q"); (kb "k2", kb "r")] with
   | Ok (Some r1, _), Ok (Some r2, _) => hash_eqb r1 r2 = true /\ root_eqb (ex_root ex_c1) (ex_root ex_c2) = true
   | _, _ => False
   end.
@@ -182,15 +169,26 @@ Proof. vm_compute. split; reflexivity. Qed.
 
 (* the guards of the partial theorems hold in that non-trivial state *)
 Example C02_ex_guards :
-  plain_update false (ex_state ex_c2) (ex_root ex_c2) [] = true /\
   resolvable ex_c2 (ex_state ex_c2) (ex_root ex_c2) = true /\
   save_quiet ex_c2 (ex_state ex_c2) 10 = true.
 Proof. vm_compute. repeat split; reflexivity. Qed.
 
-(* an aliased cache entry really arises in the model (prune, three saves at one height) *)
-Example C02_ex_aliased :
-  plain_update false (fst (exec al_ord al_cfg empty_store [None] al_ops)) al_r1 [] = false.
-Proof. vm_compute. reflexivity. Qed.
+(* the history of former known finding 3 (prune; three saves at one block height, so that the
+   third one's DelLeafCountKV loads the first two roots from the database and caches the
+   height-3 root objects; then a Set with no writes on the first root): the root comes back,
+   and the cached root record is really there *)
+Definition al_cfg : cfg := new_cfg (mk_cfg false false true 0 false false 0).
+Definition al_r1 : root :=
+  match st_set al_cfg empty_store None 2 ex_kvs1 with Ok (r, _) => r | _ => None end.
+Definition al_ops : list sop :=
+  [ SSet None 2 ex_kvs1; SSet al_r1 2 [(kb "k1", kb "x")]; SSet al_r1 2 [(kb "k2", kb "y")] ].
+Example C02_ex_empty_set_after_prune_bookkeeping :
+  let s := fst (exec al_cfg empty_store [None] al_ops) in
+  match al_r1, st_set al_cfg s al_r1 1 [] with
+  | Some h, Ok (Some h', _) => hash_eqb h h' = true /\ m_has (s_lru s) (None, h) = true
+  | _, _ => False
+  end.
+Proof. vm_compute. split; reflexivity. Qed.
 
 (* a well-formed history with a fork, a rolled-back pending update and a commit
    (prefix + mvcc configuration, no memTree, no prune) *)
@@ -198,6 +196,6 @@ Definition ex_c3 := mk_cfg true true false 0 false false 0.
 Definition ex_ops3 : list sop :=
   [SSet None 7 ex_kvs1; SMemSet (ex_root ex_c3) 9 [(kb "k2", kb "x")]; SRollback (ex_root ex_c3);
    SSet (ex_root ex_c3) 7 [(kb "k9", kb "y")]; SSet (ex_root ex_c3) 7 [(kb "k8", kb "y")]].
-Example C02_ex_wf : wf_exec ex_c3 ord0 empty_store [None] ex_ops3 /\
-  length (snd (exec' ex_c3 ord0 empty_store [None] ex_ops3)) = 4%nat.
+Example C02_ex_wf : wf_exec ex_c3 empty_store [None] ex_ops3 /\
+  length (snd (exec' ex_c3 empty_store [None] ex_ops3)) = 4%nat.
 Proof. vm_compute. intuition. Qed.
